@@ -5,6 +5,8 @@ are mapped to one representative first (line numbers of the surviving nodes are 
 
  N1  inert statements (`pass`, bare constant expressions other than docstrings) are dropped;
  N2  `if not X: A else: B` becomes `if X: B else: A`;
+ N5  spellings of one numpy operation get one representative (np.multiply(a, b) -> a * b, a.dot(b) -> a @ b, a.min() -> np.min(a), ...);
+ N6  a local bound once to a pure attribute path of self / a parameter that the function never stores to is replaced by that path;
  N4  `a > b` becomes `b < a` (likewise >=), and a constant operand of == / != / is / is not goes to the right;
  N3  a local bound once by `t = E` and read once, in the immediately following simple statement (not under a lambda or a
      comprehension), is replaced by E at that use.
@@ -178,10 +180,147 @@ def _n4(tree):
                 node.left, node.comparators[0] = r, l
 
 
+_BINOPS = {"np.multiply": ast.Mult, "np.add": ast.Add, "np.subtract": ast.Sub, "np.divide": ast.Div, "np.true_divide": ast.Div,
+           "np.matmul": ast.MatMult, "np.dot": ast.MatMult, "numpy.multiply": ast.Mult, "numpy.dot": ast.MatMult}
+_METHOD_TO_FUNC = {"min": "np.min", "max": "np.max", "sum": "np.sum", "ravel": "np.ravel", "prod": "np.prod", "mean": "np.mean"}
+_RENAME = {"np.absolute": "np.abs", "np.amax": "np.max", "np.amin": "np.min", "np.around": "np.round"}
+
+
+def _dotted(e):
+    parts = []
+    while isinstance(e, ast.Attribute):
+        parts.append(e.attr)
+        e = e.value
+    if isinstance(e, ast.Name):
+        parts.append(e.id)
+        return ".".join(reversed(parts))
+    return None
+
+
+def _parse_dotted(d):
+    return ast.parse(d, mode="eval").body
+
+
+class _N5(ast.NodeTransformer):
+    """Spellings of one operation get one representative (analysis-level equivalence; dtype promotion corner cases are ignored):
+    np.multiply(a, b) -> a * b (likewise add / subtract / divide), np.dot(a, b), np.matmul(a, b), a.dot(b) -> a @ b,
+    a.min() / a.max() / a.sum(..) / a.ravel(..) / a.prod() / a.mean() -> np.min(a) ..., np.absolute -> np.abs, np.transpose(a) -> a.T,
+    np.where(c)[0] -> np.flatnonzero(c), len(a.shape) -> a.ndim, isinstance(x, A) or isinstance(x, B) -> isinstance(x, (A, B))."""
+
+    def visit_Call(self, n):
+        self.generic_visit(n)
+        d = _dotted(n.func)
+        if d in _BINOPS and len(n.args) == 2 and not n.keywords and not any(isinstance(a, ast.Starred) for a in n.args):
+            return ast.copy_location(ast.BinOp(left=n.args[0], op=_BINOPS[d](), right=n.args[1]), n)
+        if d in _RENAME:
+            n.func = ast.copy_location(_parse_dotted(_RENAME[d]), n.func)
+            return n
+        if d == "np.square" and len(n.args) == 1 and not n.keywords:
+            return ast.copy_location(ast.BinOp(left=n.args[0], op=ast.Pow(), right=ast.Constant(value=2)), n)
+        if d == "np.linalg.norm" and len(n.args) == 2 and isinstance(n.args[1], ast.Constant) and n.args[1].value == 2 and any(k.arg == "axis" for k in n.keywords):
+            n.args = n.args[:1]  # the 2-norm is the default for vectors along an axis
+            return n
+        if isinstance(n.func, ast.Attribute) and n.func.attr == "reshape" and len(n.args) >= 2 and not n.keywords and not any(isinstance(a, ast.Starred) for a in n.args):
+            n.args = [ast.Tuple(elts=list(n.args), ctx=ast.Load())]
+            return n
+        if d == "np.transpose" and len(n.args) == 1 and not n.keywords:
+            return ast.copy_location(ast.Attribute(value=n.args[0], attr="T", ctx=ast.Load()), n)
+        if d == "len" and len(n.args) == 1 and isinstance(n.args[0], ast.Attribute) and n.args[0].attr == "shape":
+            return ast.copy_location(ast.Attribute(value=n.args[0].value, attr="ndim", ctx=ast.Load()), n)
+        if isinstance(n.func, ast.Attribute) and d is None or (isinstance(n.func, ast.Attribute) and not (d or "").startswith(("np.", "numpy.", "scipy.", "sps.", "math.", "cv2.", "skimage.", "darsia.", "da."))):
+            a = n.func.attr
+            recv = n.func.value
+            if a == "dot" and len(n.args) == 1 and not n.keywords:
+                return ast.copy_location(ast.BinOp(left=recv, op=ast.MatMult(), right=n.args[0]), n)
+            if a in _METHOD_TO_FUNC and not (isinstance(recv, ast.Name) and recv.id in ("self", "cls", "super")) and not isinstance(recv, ast.Constant) \
+                    and not (isinstance(recv, ast.Call) and isinstance(recv.func, ast.Name) and recv.func.id == "super"):
+                return ast.copy_location(ast.Call(func=_parse_dotted(_METHOD_TO_FUNC[a]), args=[recv] + n.args, keywords=n.keywords), n)
+        return n
+
+    def visit_Subscript(self, n):
+        self.generic_visit(n)
+        v = n.value
+        if isinstance(v, ast.Call) and _dotted(v.func) == "np.where" and len(v.args) == 1 and not v.keywords and isinstance(n.slice, ast.Constant) and n.slice.value == 0:
+            return ast.copy_location(ast.Call(func=_parse_dotted("np.flatnonzero"), args=v.args, keywords=[]), n)
+        return n
+
+    def visit_BoolOp(self, n):
+        self.generic_visit(n)
+        if isinstance(n.op, ast.Or) and all(isinstance(v, ast.Call) and isinstance(v.func, ast.Name) and v.func.id == "isinstance" and len(v.args) == 2 and not v.keywords for v in n.values):
+            first = ast.dump(n.values[0].args[0])
+            if all(ast.dump(v.args[0]) == first for v in n.values):
+                types = []
+                for v in n.values:
+                    types.extend(v.args[1].elts if isinstance(v.args[1], ast.Tuple) else [v.args[1]])
+                return ast.copy_location(ast.Call(func=ast.Name(id="isinstance", ctx=ast.Load()), args=[n.values[0].args[0], ast.Tuple(elts=types, ctx=ast.Load())], keywords=[]), n)
+        return n
+
+
+def _n5(tree):
+    return _N5().visit(tree)
+
+
+def _pure_path(e):
+    while isinstance(e, ast.Attribute):
+        e = e.value
+    return isinstance(e, ast.Name)
+
+
+def _n6(tree):
+    """A local bound exactly once to a pure attribute path of a parameter / self (`labels = self.cached_labels`) is replaced by that path
+    at every use, provided the function never stores to that path or to a prefix of it (so the alias and the path denote the same object
+    throughout) and the local is not captured by a nested function."""
+    for fn in [n for n in ast.walk(tree) if isinstance(n, (ast.FunctionDef, ast.AsyncFunctionDef))]:
+        stores, loads = _counts(fn)
+        params = {a.arg for a in fn.args.posonlyargs + fn.args.args + fn.args.kwonlyargs}
+        stored_paths = set()
+        for n in ast.walk(fn):
+            if isinstance(n, (ast.Attribute, ast.Subscript)) and isinstance(getattr(n, "ctx", None), (ast.Store, ast.Del)):
+                b = n
+                while isinstance(b, ast.Subscript):
+                    b = b.value
+                try:
+                    stored_paths.add(ast.unparse(b))
+                except Exception:
+                    pass
+        nested_names = {x.id for n in ast.walk(fn) if isinstance(n, (ast.FunctionDef, ast.AsyncFunctionDef, ast.Lambda)) and n is not fn for x in ast.walk(n) if isinstance(x, ast.Name)}
+        alias = {}
+        for node in ast.walk(fn):
+            for fld, lst in _blocks(node):
+                for st in lst:
+                    if isinstance(st, ast.Assign) and len(st.targets) == 1 and isinstance(st.targets[0], ast.Name) and isinstance(st.value, ast.Attribute) and _pure_path(st.value):
+                        t = st.targets[0].id
+                        root = st.value
+                        while isinstance(root, ast.Attribute):
+                            root = root.value
+                        path = ast.unparse(st.value)
+                        if stores.get(t, 0) == 1 and t not in params and t not in nested_names and (root.id == "self" or root.id in params) and stores.get(root.id, 0) <= 2 \
+                                and not any(path == sp or path.startswith(sp + ".") or sp.startswith(path + ".") for sp in stored_paths):
+                            alias[t] = (st, st.value)
+        if not alias:
+            continue
+
+        class Sub(ast.NodeTransformer):
+            def visit_Name(self, n):
+                if isinstance(n.ctx, ast.Load) and n.id in alias:
+                    import copy
+                    return ast.copy_location(copy.deepcopy(alias[n.id][1]), n)
+                return n
+        drop = {id(v[0]) for v in alias.values()}
+        for node in ast.walk(fn):
+            for fld, lst in list(_blocks(node)):
+                keep = [st for st in lst if id(st) not in drop]
+                if keep:
+                    lst[:] = keep
+        Sub().visit(fn)
+
+
 def normalize(tree):
     _n1(tree)
     _n2(tree)
+    _n5(tree)
     _n4(tree)
+    _n6(tree)
     _n3(tree)
     ast.fix_missing_locations(tree)
     return tree
